@@ -19,6 +19,7 @@ Exit codes: 0 held / 1 violation / 2 harness error.
 """
 
 import argparse
+import functools
 import collections
 import hashlib
 import json
@@ -115,6 +116,47 @@ def case_hash(o):
 # ---------------------------------------------------------------- property
 
 
+def _escaped_from_psutil(e):
+    """True when the innermost frame of the traceback is code of the psutil
+    tree under test (not the harness, not Hypothesis, not the stdlib)."""
+    tb = e.__traceback__
+    last = None
+    while tb is not None:
+        last = tb
+        tb = tb.tb_next
+    if last is None:
+        return False
+    fn = os.path.abspath(last.tb_frame.f_code.co_filename)
+    root = os.environ.get("VERIF_REPO_COPY")
+    if root:
+        return fn.startswith(os.path.join(os.path.abspath(root), "psutil") + os.sep)
+    return (os.sep + "psutil" + os.sep) in fn and not fn.startswith(VERIF_DIR)
+
+
+def _guard(run_case):
+    """An exception that is raised *inside psutil* and that the property's
+    own oracle did not anticipate is reported as a violation (clause
+    `unexpected-exception`) instead of a harness error: psutil's documented
+    error types are handled by the oracles, anything else escaping from its
+    code for a generated input means the call neither returned a value nor
+    raised a psutil error."""
+    @functools.wraps(run_case)
+    def wrapper(case):
+        try:
+            return run_case(case)
+        except (Violation, HarnessError, KeyboardInterrupt, MemoryError):
+            raise
+        except Exception as e:  # noqa: BLE001
+            if type(e).__name__ in ("VirtualTimeExhausted", "Unsatisfiable") \
+                    or type(e).__module__.startswith("hypothesis"):
+                raise
+            if _escaped_from_psutil(e):
+                tb = "".join(traceback.format_exception(type(e), e, e.__traceback__))[-900:]
+                raise Violation("unexpected-exception", f"{e!r} escaped from psutil:\n{tb}") from None
+            raise
+    return wrapper
+
+
 class Property:
     def __init__(
         self,
@@ -135,7 +177,7 @@ class Property:
         self.level = level
         self.rule = rule
         self.strategy = strategy
-        self.run_case = run_case
+        self.run_case = run_case = _guard(run_case)
         self.budgets = budgets
         self.assumptions = list(assumptions)
         self.calibrate = calibrate
